@@ -13,8 +13,8 @@ func init() {
 	Registry["C13"] = c13
 	Metas["C13"] = Meta{Level: "other", NeedCG: true,
 		Technique: "static analysis: edge-dominance of verify-before-execute in the sync loop, closure free-variable provenance of the verifier's validator set, sibling commit-path order, nil-ness obligations on the peer-supplied commit",
-		Explain: "Static analysis of fast sync. Decided: (R1) in poolRoutine the executor call and PopRequest are edge-dominated by a nil result of the verifier called with BlockID{first.Hash(), parts header of first}, first.Height and second.LastCommit of the same peeked pair, and the error edge re-requests the block; (R2) the verifier closure installed in BFT mode reads stateM.Validators and stateM.ChainID inside the closure (no captured snapshot) and the executor closure applies blocks to that same stateM; (R3) the executor performs SaveBlock < ApplyBlock < Save (C06-R2) and ApplyBlock re-validates the block (C02-R3); (R4) the peer-supplied commit is nil-checked before it is dereferenced and the commit accessors tolerate a commit whose precommits are all nil; (R6) VerifyCommit's guard list (shared with C02-R4); (R5) a block is accepted into the pool only from the peer it was requested from and only once. (R7) the requester's block and peer id are read only under its mutex (they are reset asynchronously when the serving peer goes away). NOT decided: equality of the end state with live consensus; behaviour under peer timeouts.",
-		Assume: []string{"VerifyCommit is correct (C02-R4/C15-R7)"},
+		Explain:   "Static analysis of fast sync. Decided: (R1) in poolRoutine the executor call and PopRequest are edge-dominated by a nil result of the verifier called with BlockID{first.Hash(), parts header of first}, first.Height and second.LastCommit of the same peeked pair, and the error edge re-requests the block; (R2) the verifier closure installed in BFT mode reads stateM.Validators and stateM.ChainID inside the closure (no captured snapshot) and the executor closure applies blocks to that same stateM; (R3) the executor performs SaveBlock < ApplyBlock < Save (C06-R2) and ApplyBlock re-validates the block (C02-R3); (R4) the peer-supplied commit is nil-checked before it is dereferenced and the commit accessors tolerate a commit whose precommits are all nil; (R6) VerifyCommit's guard list (shared with C02-R4); (R5) a block is accepted into the pool only from the peer it was requested from and only once. (R7) the requester's block and peer id are read only under its mutex (they are reset asynchronously when the serving peer goes away). NOT decided: equality of the end state with live consensus; behaviour under peer timeouts.",
+		Assume:    []string{"VerifyCommit is correct (C02-R4/C15-R7)"},
 	}
 }
 
@@ -30,6 +30,7 @@ func c13(c *Ctx) {
 	requesterGuardRule(c, "R7")
 	fastSyncHandoverRule(c, "R8")
 	quorumRule(c, "R9")
+	poolStartObligations(c, c.R.Rule("R10", "fast sync resumes at the state's height: the height handed to NewBlockPool is store.Height()+1 read after the start-up adjustment of the store (a block saved but not applied before a crash is fetched and applied again, not skipped)", 1))
 	shared(c, "C16", func(c *Ctx) { valsetCacheRule(c, "R2") })
 	shared(c, "C14", func(c *Ctx) { uniformApplicationRule(c, "R5") })
 	shared(c, "C02", c02R2)
@@ -60,7 +61,9 @@ func c13R1(c *Ctx) {
 	c.R.Ob(rule, "verify:commit=second.LastCommit", callArg(v, 2) == second+".LastCommit", c.Pos(v), fname(f), "block h must be justified by the LastCommit of block h+1; got "+shorten(callArg(v, 2)))
 	hashOK, partsOK := false, false
 	if al, ok := v.Common().Args[0].(*ssa.UnOp); ok {
-		for _, st := range f.Stores(func(a string) bool { return strings.HasPrefix(a, cfgx.Expr(al.X)+".") || strings.HasPrefix(a, "local:complit.") }) {
+		for _, st := range f.Stores(func(a string) bool {
+			return strings.HasPrefix(a, cfgx.Expr(al.X)+".") || strings.HasPrefix(a, "local:complit.")
+		}) {
 			a := cfgx.AddrExpr(st.Addr)
 			if strings.HasSuffix(a, ".Hash") && cfgx.Expr(st.Val) == "gemmill/types.(*Block).Hash("+first+")" && f.Dominates(st, v) {
 				hashOK = true
@@ -195,7 +198,6 @@ func requesterGuardRule(c *Ctx, id string) {
 			Exempt: map[string]string{"gemmill/blockchain.newBPRequester": "constructor: the requester is not shared yet"}},
 	})
 }
-
 
 // fastSyncHandoverRule (C13-R8, C04-R10): the fast-sync routine ends with the handover.
 func fastSyncHandoverRule(c *Ctx, id string) {
